@@ -153,7 +153,8 @@ let () =
                 let r = parse_result d in
                 (match wf_failures s r with
                  | [] -> "WF=ok"
-                 | l -> "WF=" ^ String.concat "," (List.map (fun n -> string_of_int (int_of_nat n)) l))
+                 | l -> "WF=" ^ String.concat "," (List.map (fun n -> string_of_int (int_of_nat n)) l)
+                        ^ " DEPS=" ^ String.concat "+" (List.map (fun n -> string_of_int (int_of_nat n)) (deps_failing s r)))
         with Failure m -> "BAD_LINE " ^ m | Invalid_argument m -> "BAD_LINE " ^ m))
   | "search" ->
       (* exhaustive search for order dependence: all one-component systems with K classes (each with or without
